@@ -60,7 +60,7 @@ PROPS = {
         "exhaustive": {"quick": False, "thorough": True},
         "rule": "sweep of the header routine (verif-tagged export) over (format, element count): thorough = every count with count*width in 0..16,777,215 plus the next 64 "
                 "(about 136M calls, exhaustive), quick = all counts <= 70000, +-300 around each border, seeded stride beyond; plus real items built through the factories at "
-                "counts {0,1, around 255|256 and 65535|65536, limit-1, limit, limit+1, limit+2} for all 14 formats - each size with four different payloads (a plain value, the largest value / all bits set, the smallest / sign bit only, a byte pattern with delimiter-like bytes; ASCII: x, DEL, NUL, percent sign) -, encoded, framed and decoded back - at the length-field borders also as a child of a list, alone and between siblings; SML: a two-element item of every format with a declared upper bound at and beyond the capacity of the format must be accepted. Oracle: reference header "
+                "counts {0,1, around 255|256 and 65535|65536, limit-1, limit, limit+1, limit+2} for all 14 formats - each size with four different payloads (a plain value, the largest value / all bits set, the smallest / sign bit only, a byte pattern with delimiter-like bytes; ASCII: x, DEL, NUL, percent sign) -, encoded, framed and decoded back - at the length-field borders also as a child of a list, alone and between siblings; lists expanded through an ellipsis, top-level and nested, up to the limit and one beyond (refused); SML: a two-element item of every format with a declared upper bound at and beyond the capacity of the format must be accepted. Oracle: reference header "
                 "(format code, shortest big-endian length, 1/2/3 bytes at exactly 255|256 and 65535|65536, refusal beyond the limit); factory succeeds iff count*width <= 16,777,215; "
                 "ToBytes() non-empty with that header and exact total length; decoder re-encodes to the same bytes. Non-trivial: count > 0; distinct by (format, count) by construction.",
         "assumptions": COMMON_ASSUMPTIONS + ["hook: pkg/ast/export_verif.go (build tag verif) only forwards to the unexported header routine"],
@@ -101,7 +101,8 @@ PROPS = {
         "level": "exploration",
         "jobs": [{"test": "TestC16", "kind": "rapid", "quick": 300000, "thorough": 2000000},
                  {"test": "TestC16Decoded", "kind": "rapid", "quick": 100000, "thorough": 1500000}],
-        "floors": {"post-expansion": ("job:TestC16", 0.05), "message": ("job:TestC16", 0.15), "vars>=2:true": ("job:TestC16", 0.25), "collision:refused-at-construction": ("job:TestC16", 0.02), "collision:refused-at-expansion": ("job:TestC16", 0.0001)},
+        "floors": {"post-expansion": ("job:TestC16", 0.05), "message": ("job:TestC16", 0.15), "vars>=2:true": ("job:TestC16", 0.25), "collision:refused-at-construction": ("job:TestC16", 0.02), "collision:refused-at-expansion": ("job:TestC16", 0.0001),
+                   "decoded:accepted": ("job:TestC16Decoded", 0.08), "decoded:refused": ("job:TestC16Decoded", 0.1)},
         "rule": "rapid-generated item trees and messages with element variables, ASCII variables, item variables and ellipses anywhere (also trees obtained by expanding ellipses); "
                 "every sub-item is observed too. Oracle (relational, three observers): Variables() == names read off String() by an independent reader, in order, each once (ellipses as ...); "
                 "len(ToBytes()) > 0 iff that list is empty; Size() == number of printed elements (-1 for an ASCII variable) and equals the printed [n]; message ToBytes non-empty iff complete. "
@@ -129,19 +130,20 @@ PROPS = {
             {"test": "TestC10", "kind": "rapid", "quick": 60000, "thorough": 1200000},
         ],
         "exhaustive": {"quick": False, "thorough": False},
-        "floors": {"filled-n>0": ("job:TestC10", 0.3), "rounds=2": ("job:TestC10", 0.15)},
+        "floors": {"filled-n>0": ("job:TestC10", 0.3), "rounds=2": ("job:TestC10", 0.15), "one-call:stale-key-ignored": ("job:TestC10", 0.05),
+                   "one-call:refused-value-next-to-counts": ("job:TestC10", 0.05), "one-call:counts+unchanged-names": ("job:TestC10", 0.1)},
         "rule": "(i) all list templates with <= 3 entries over {value item, item with variable, ASCII variable, item variable, ellipsis, nested list of <= 2 such entries} x every "
                 "assignment of {absent,0,1,2} to each ellipsis (thorough: all; quick: a seeded quarter), single ellipses named both ... and ...[0]; (ii) rapid-generated templates of depth <= 4, "
                 "<= 5 entries, counts 0..4, partial assignments, 1-3 successive rounds of fills (later rounds act on already expanded templates with suffixed names). Oracle: reference expander "
                 "written from the list documentation: equal String(), Size(), Variables() (ellipsis names modulo the documented renumbering), all names unique; then every variable of the result "
-                "is filled alone (value of the owning item's type / count 1 for an ellipsis) and compared with the model again. Non-trivial: >= 1 ellipsis filled with n >= 1 and >= 1 variable renamed.",
+                "is filled alone (value of the owning item's type / count 1 for an ellipsis) and compared with the model again; one call with counts, names the expansion generates and names it leaves unchanged equals the two calls one after the other; a value that is refused alone (a number for an item variable) is refused next to repeat counts; a key that names a variable only before the expansion changes nothing. Non-trivial: >= 1 ellipsis filled with n >= 1 and >= 1 variable renamed.",
         "exhaustive_note": {"quick": "a quarter of the exhaustive small-template set", "thorough": "exhaustive small-template set (depth <= 2)"},
         "assumptions": COMMON_ASSUMPTIONS,
     },
     "C09": {
         "level": "exploration",
         "jobs": [{"test": "TestC09", "kind": "rapid", "quick": 250000, "thorough": 2000000}],
-        "floors": {"refused": ("job:TestC09", 0.03), "composition:steps=2": ("job:TestC09", 0.03), "composition:steps=3": ("job:TestC09", 0.03),
+        "floors": {"related-name": ("job:TestC09", 0.05), "wordy-name": ("job:TestC09", 0.05), "keyword-like-name": ("job:TestC09", 0.05), "refused": ("job:TestC09", 0.03), "composition:steps=2": ("job:TestC09", 0.03), "composition:steps=3": ("job:TestC09", 0.03),
                    "message": ("job:TestC09", 0.1), "hits>=1:true": ("job:TestC09", 0.5), "key-names-variable-brought-by-inserted-value": ("job:TestC09", 0.004)},
         "rule": "rapid-generated templates (all node kinds, nesting, variables anywhere, with and without unfilled ellipses) x assignments (hits, misses, unknown keys, Go argument "
                 "types by variant, values outside the item's domain / outside declared string bounds, item-variable values that are variable-free subtrees, subtrees with own variables, or "
@@ -167,7 +169,7 @@ PROPS = {
         "level": "exploration",
         "jobs": [{"test": "TestC05", "kind": "rapid", "quick": 80000, "thorough": 2000000}],
         "fuzz": [{"fuzz": "FuzzSML", "budget_s": 120}],
-        "floors": {"class:reject": ("job:TestC05", 0.2), "spell:hex": ("job:TestC05", 0.2), "spell:octal": ("job:TestC05", 0.1), "spell:binary": ("job:TestC05", 0.1),
+        "floors": {"bad:repeated-variable-in-one-item": ("job:TestC05", 0.008), "class:reject": ("job:TestC05", 0.2), "spell:hex": ("job:TestC05", 0.2), "spell:octal": ("job:TestC05", 0.1), "spell:binary": ("job:TestC05", 0.1),
                    "spell:ascii-code": ("job:TestC05", 0.1), "spell:backslash-in-quotes": ("job:TestC05", 0.01), "spell:float-e": ("job:TestC05", 0.05),
                    "size:range": ("job:TestC05", 0.05)},
         "rule": "texts built FROM values: rapid draws 1-3 messages (header, item tree over the 14 types with values, variables, bounded ASCII variables, ellipses) and a speller draws the "
@@ -175,7 +177,7 @@ PROPS = {
                 "e or E and optional +, strings as quoted runs of any printable ASCII incl. backslash, //, <, >, . split into several runs (also empty ones) and character codes in any base, T/F/t/f, type names "
                 "and header tokens in any case, optional size declarations in all four forms). In a third of the cases one literal that the item type cannot represent (just out of range, "
                 "wrongly typed, non-ASCII, invalid UTF-8, absurdly large, a variable in front of the values of an ASCII item; for every integer type incl. the 64-bit ones at random distances beyond the range and around the multiples of the wrap-around modulus) is inserted. Oracle: MUST-ACCEPT texts: no error, one message per written message, header fields and variables equal, "
-                "String() equal to the message constructed directly from the denoted values, and after completion ToBytes() == reference encoding of the denoted values; MUST-REJECT texts: "
+                "String() equal to the message constructed directly from the denoted values, and after completion ToBytes() == reference encoding of the denoted values; MUST-REJECT texts (also: a variable next to the values of an ASCII item, the same variable twice in one item): "
                 ">= 1 error and no message. Non-trivial: >= 1 literal that is not a plain decimal/shortest float, or a rejected text.",
         "notes": ["spellings whose denotation is not documented (+5 in an unsigned item, -0, 5. / .5, leading-zero decimals, hex in float items, raw control characters inside quotes) are not generated"],
         "assumptions": COMMON_ASSUMPTIONS + ["strconv.FormatFloat in the generator writes literals that denote the intended float"],
@@ -230,10 +232,10 @@ PROPS = {
             {"test": "TestC15Enum", "kind": "enum"},
             {"test": "TestC15", "kind": "rapid", "quick": 40000, "thorough": 800000},
         ],
-        "floors": {"literal:within": ("job:TestC15", 0.1), "literal:outside": ("job:TestC15", 0.2), "variable:small-bounds": ("job:TestC15", 0.03), "variable:huge-bounds": ("job:TestC15", 0.01)},
+        "floors": {"literal:within": ("job:TestC15", 0.1), "literal:outside": ("job:TestC15", 0.2), "variable:small-bounds": ("job:TestC15", 0.03), "variable:huge-bounds": ("job:TestC15", 0.01), "exotic-blank-in-declaration:refused": ("job:TestC15", 0.02)},
         "rule": "exhaustive: 4 declaration forms x 14 item types x lower, upper, actual element count in 0..5 (literal items, alone and as list children; lists of literal children; ASCII literals also as one run per character plus 1..3 empty runs; the violating item also twice on one line, position of the second report checked); ASCII "
                 "variables with every form and bounds 0..5 directly and carried through a list expansion; NewASCIINodeVariable over a grid of (min, max) incl. invalid ones. Random: bounds "
-                "with 1-25 digits incl. 2^31, 2^63, 2^64 borders, bounds spelled with leading zeros (only spellings with one possible reading: value below 8 or a digit 8/9 present), blanks inside the brackets, counts near the declared bounds. Oracle: a literal is accepted iff lower <= count <= upper "
+                "with 1-25 digits incl. 2^31, 2^63, 2^64 borders, bounds spelled with leading zeros (only spellings with one possible reading: value below 8 or a digit 8/9 present), blanks inside the brackets (also Unicode blanks outside ASCII: such a declaration may be refused, if accepted its bounds hold as written), counts near the declared bounds. Oracle: a literal is accepted iff lower <= count <= upper "
                 "(math/big; missing bound = unbounded) and then holds exactly that many elements; otherwise no message and an error at the line/column of the '[' token; an ASCII variable "
                 "keeps its bounds (printed back for bounds that fit, fixed point of print/parse), strings are accepted iff their length lies inside (probed at lower-1, lower, upper, upper+1, "
                 "0, 5), lower > upper is an error, FillInStringLength() returns the constructor arguments. Non-trivial: count within 1 of a declared bound, or a variable case.",
